@@ -17,7 +17,11 @@ func Go(f func()) { GoNamed("", f) }
 func GoNamed(name string, f func()) {
 	s := active()
 	if s == nil {
-		go f()
+		nativeLive.Add(1)
+		go func() {
+			defer nativeLive.Add(-1)
+			f()
+		}()
 		return
 	}
 	p := s.running
@@ -338,15 +342,15 @@ type Case interface {
 
 // RC is a receive case.
 type RC[T any] struct {
-	ch  <-chan T
-	v   T
-	ok  bool
+	ch <-chan T
+	v  T
+	ok bool
 }
 
-func RecvCase[T any](ch <-chan T) *RC[T] { return &RC[T]{ch: ch} }
-func (c *RC[T]) Val() T                  { return c.v }
-func (c *RC[T]) Val2() (T, bool)         { return c.v, c.ok }
-func (c *RC[T]) build(s *Sched) selCase  { return selCase{ch: s.chanOf(c.ch)} }
+func RecvCase[T any](ch <-chan T) *RC[T]    { return &RC[T]{ch: ch} }
+func (c *RC[T]) Val() T                     { return c.v }
+func (c *RC[T]) Val2() (T, bool)            { return c.v, c.ok }
+func (c *RC[T]) build(s *Sched) selCase     { return selCase{ch: s.chanOf(c.ch)} }
 func (c *RC[T]) nativeRecv() (func(), bool) { return nil, false }
 func (c *RC[T]) set(v any, ok bool) {
 	c.ok = ok
@@ -362,8 +366,8 @@ type SC[T any] struct {
 }
 
 func SendCase[T any](ch chan<- T, v any) *SC[T] { return &SC[T]{ch: ch, v: conv[T](v)} }
-func (c *SC[T]) build(s *Sched) selCase       { return selCase{send: true, ch: s.chanOf(c.ch), val: c.v} }
-func (c *SC[T]) nativeRecv() (func(), bool)   { return nil, false }
+func (c *SC[T]) build(s *Sched) selCase         { return selCase{send: true, ch: s.chanOf(c.ch), val: c.v} }
+func (c *SC[T]) nativeRecv() (func(), bool)     { return nil, false }
 
 type setter interface{ set(v any, ok bool) }
 
@@ -420,7 +424,7 @@ func Select(hasDefault bool, cases ...Case) int {
 func Now() time.Time {
 	s := active()
 	if s == nil {
-		return time.Now()
+		return nativeNow()
 	}
 	s.running.h = mix(s.running.h, 'N', uint64(s.now))
 	return epoch.Add(s.now)
@@ -429,7 +433,7 @@ func Now() time.Time {
 func Since(t time.Time) time.Duration {
 	s := active()
 	if s == nil {
-		return time.Since(t)
+		return nativeNow().Sub(t)
 	}
 	return epoch.Add(s.now).Sub(t)
 }
@@ -437,7 +441,7 @@ func Since(t time.Time) time.Duration {
 func After(d time.Duration) <-chan time.Time {
 	s := active()
 	if s == nil {
-		return time.After(d)
+		return time.After(d / time.Duration(NativeTimeScale))
 	}
 	ch := make(chan time.Time, 1)
 	st := s.chanOf(ch)
@@ -452,7 +456,7 @@ func After(d time.Duration) <-chan time.Time {
 func Sleep(d time.Duration) {
 	s := active()
 	if s == nil {
-		time.Sleep(d)
+		time.Sleep(d / time.Duration(NativeTimeScale))
 		return
 	}
 	Recv(After(d))
